@@ -251,6 +251,13 @@ func (pm *ProtocolManager) handleMsg(p *peer) error {
 		if request.Amount > uint64(downloader.MaxHashFetch) {
 			request.Amount = uint64(downloader.MaxHashFetch)
 		}
+		// Heights start at 1; an empty range or one whose end wraps around has no hashes
+		if request.Number == 0 && request.Amount > 0 {
+			request.Number, request.Amount = 1, request.Amount-1
+		}
+		if request.Amount == 0 || request.Number+request.Amount-1 < request.Number {
+			return p.SendBlockHashes(nil)
+		}
 		// Calculate the last block that should be retrieved, and short circuit if unavailable
 		last, err := pm.chainman.GetBlockByNumber(request.Number + request.Amount - 1)
 		if err != nil {
